@@ -340,7 +340,12 @@ var concOps = []concOp{
 	}},
 	{"clone", "", func(f *sfnt.Font, r *concRng) string {
 		c := f.Clone()
-		return fmt.Sprintf("%x,%v", deepHash(c), c != f)
+		res := fmt.Sprintf("%v,%v,%v,%v,%v,%s,%d,%d", c != f, c.Outlines == f.Outlines, c.Gsub == f.Gsub, c.Gpos == f.Gpos,
+			c.Gdef == f.Gdef, c.FamilyName, c.NumGlyphs(), len(c.CMapTable))
+		if c.NumGlyphs() < 100 { // the deep hash of a 650-glyph font costs 0.1 s
+			res += fmt.Sprintf(",%x", deepHash(c))
+		}
+		return res
 	}},
 	{"fontbbox", "", func(f *sfnt.Font, r *concRng) string { return fmt.Sprint(f.FontBBox()) }},
 	{"fontbboxpdf", "", func(f *sfnt.Font, r *concRng) string { return fmt.Sprint(f.FontBBoxPDF()) }},
@@ -735,6 +740,8 @@ func concRaceSummary(rep string) string {
 
 func areaConc(c *Ctx) {
 	thorough := c.Tier == "thorough"
+	// a loaded machine must not turn a slow case into a spurious "timeout" outcome
+	caseTimeout = 60 * time.Second
 	// applicable operations per font (computed once on throw-away instances)
 	appl := map[string][]string{}
 	fonts := append([]string{}, concFontIDs...)
@@ -840,6 +847,15 @@ func areaConc(c *Ctx) {
 			}
 		}
 		k := c.Rng.Range(1, maxOps)
+		// keep a case well inside the per-case time limit: goroutines x operations x font weight
+		// (a TrueType operation costs about 8 times a debug-font one; 1000 units is about 3 s)
+		weight := 1
+		if strings.HasPrefix(id, "ttf") {
+			weight = 8
+		}
+		for threads*k*weight > 900 && k > 1 {
+			k--
+		}
 		names := make([]string, k)
 		for j := range names {
 			names[j] = pickOp(id)
